@@ -489,7 +489,11 @@ fn main() {
             let _ = catch(move || drop(d));
         }
     }
-    std::thread::sleep(Duration::from_millis(30));
+    // the puppet prints its counters right before exiting; the pipe is drained by a background thread
+    let t_end = Instant::now();
+    while !cx.out.stdout_string().contains("SIG ") && t_end.elapsed() < Duration::from_secs(5) {
+        std::thread::sleep(Duration::from_millis(10));
+    }
     interpose::push(json!({"ev": "end", "stdout": cx.out.stdout_string(), "stderr": cx.out.stderr_string()}));
     flush(&mut out);
     unsafe { libc::kill(p.pid, libc::SIGKILL) };
